@@ -103,7 +103,7 @@ PROPS = {
             ep_gen("ep-cases", ["gen"], ["C01"], 50, seed_offset=3),
             castle_gen("castling-cases", ["gen"], ["C01"], 40),
             chess_model("model-gen", ["WellFormed", "GenExact"], [], MCQ, MCT),
-            board_job("gen-magic", ["gen"], ["C01"], {"histories": 500, "subtrees": 220, "deep": 2}, {"histories": 30000, "subtrees": 400, "deep": 30}, sample_kinds=["reset", "gen", "play"]),
+            board_job("gen-magic", ["gen"], ["C01"], {"histories": 500, "subtrees": 260, "deep": 2}, {"histories": 30000, "subtrees": 400, "deep": 30}, sample_kinds=["reset", "gen", "play"]),
             board_job("gen-pext", ["gen"], ["C01"], {"histories": 250, "subtrees": 10}, {"histories": 15000, "subtrees": 400, "deep": 10}, variant="pext", seed_offset=7919, sample_kinds=["gen"]),
         ],
     },
@@ -114,7 +114,7 @@ PROPS = {
             ep_gen("ep-cases", ["acc"], ["C02"], 50, seed_offset=17),
             castle_gen("castling-cases", ["acc"], ["C02"], 40, seed_offset=13),
             chess_model("model-play", ["WellFormed"], ["SuccOK"], MCQ, MCT),
-            board_job("play", ["acc"], ["C02"], {"histories": 900, "subtrees": 220, "deep": 3}, {"histories": 60000, "subtrees": 400, "deep": 40}, sample_kinds=["reset", "play"]),
+            board_job("play", ["acc"], ["C02"], {"histories": 900, "subtrees": 260, "deep": 3}, {"histories": 60000, "subtrees": 400, "deep": 40}, sample_kinds=["reset", "play"]),
         ],
     },
     "C03": {
@@ -125,7 +125,7 @@ PROPS = {
             check_gen("check-geometries", [], ["C03"], 40, seed_offset=5),
             ep_gen("ep-cases", ["rebuild"], ["C03", "C09"], 50, seed_offset=23),
             chess_model("model-derived", ["DerivedOK", "CheckersAreAttackers", "FreshEqual"], [], MCQ, MCT),
-            board_job("derived", ["rebuild"], ["C03", "C09"], {"histories": 900, "subtrees": 220, "deep": 2, "transpositions": 150}, {"histories": 60000, "subtrees": 400, "deep": 40, "transpositions": 5000}, sample_kinds=["play", "null", "rebuild", "pair"]),
+            board_job("derived", ["rebuild"], ["C03", "C09"], {"histories": 900, "subtrees": 260, "deep": 2, "transpositions": 150}, {"histories": 60000, "subtrees": 400, "deep": 40, "transpositions": 5000}, sample_kinds=["play", "null", "rebuild", "pair"]),
         ],
         "report": ["C03", "C09"],
     },
@@ -137,7 +137,7 @@ PROPS = {
             ep_gen("ep-cases", ["islegal"], ["C04"], 80, seed_offset=31),
             castle_gen("castling-cases", ["islegal"], ["C04"], 60, seed_offset=29),
             chess_model("model-islegal", ["IsLegalOK"], [], dict(MCQ, sweep=2), dict(MCT, sweep=2, max_roots=40)),
-            board_job("islegal", ["islegal"], ["C04"], {"histories": 500, "subtrees": 130, "deep": 1}, {"histories": 40000, "subtrees": 400, "deep": 30}, sample_kinds=["reset", "islegal"]),
+            board_job("islegal", ["islegal"], ["C04"], {"histories": 500, "subtrees": 160, "deep": 1}, {"histories": 40000, "subtrees": 400, "deep": 30}, sample_kinds=["reset", "islegal"]),
         ],
     },
     "C07": {
@@ -145,7 +145,7 @@ PROPS = {
         "assumptions": BOARD_ASSUME,
         "jobs": [
             chess_model("model-text", ["CanonRoundTrip", "ParseModelRoundTrip"], [], MCQ, MCT),
-            board_job("text", ["text"], ["C07"], {"histories": 600, "subtrees": 220, "transpositions": 100}, {"histories": 200000, "subtrees": 400, "deep": 20, "transpositions": 10000}, sample_kinds=["text", "pair"]),
+            board_job("text", ["text"], ["C07"], {"histories": 600, "subtrees": 260, "transpositions": 100}, {"histories": 200000, "subtrees": 400, "deep": 20, "transpositions": 10000}, sample_kinds=["text", "pair"]),
         ],
         "report": ["C07", "C03"],
     },
@@ -155,7 +155,7 @@ PROPS = {
         "jobs": [
             chess_model("model-hash", ["HashPure", "FreshEqual"], [], dict(MCQ, setters=1), dict(MCT, setters=1)),
             parse_job("texts", "parse", ["C10"], {"bases": 60, "random": 100, "edits": 20}, {"bases": 4000, "random": 10000, "edits": 40}, sample_kinds=["parse"]),
-            board_job("hash", ["fresh"], ["C10"], {"histories": 700, "subtrees": 220, "deep": 1, "transpositions": 200}, {"histories": 50000, "subtrees": 400, "deep": 30, "transpositions": 6000}, sample_kinds=["fresh", "pair", "null"]),
+            board_job("hash", ["fresh"], ["C10"], {"histories": 700, "subtrees": 260, "deep": 1, "transpositions": 200}, {"histories": 50000, "subtrees": 400, "deep": 30, "transpositions": 6000}, sample_kinds=["fresh", "pair", "null"]),
         ],
         "report": ["C10", "C03"],
     },
@@ -166,7 +166,7 @@ PROPS = {
             pin_gen("pin-cases", ["status"], ["C12"], 30, seed_offset=67),
             mate_gen("endings", ["status"], ["C12"], seed_offset=3),
             chess_model("model-status", ["StatusOK"], [], dict(MCQ, setters=1), dict(MCT, setters=1)),
-            board_job("status", ["status"], ["C12"], {"histories": 900, "subtrees": 220, "deep": 2}, {"histories": 60000, "subtrees": 400, "deep": 40}, sample_kinds=["status", "sethmc"]),
+            board_job("status", ["status"], ["C12"], {"histories": 900, "subtrees": 260, "deep": 2}, {"histories": 60000, "subtrees": 400, "deep": 40}, sample_kinds=["status", "sethmc"]),
         ],
     },
     "C13": {
@@ -175,7 +175,7 @@ PROPS = {
         "jobs": [
             ep_gen("ep-cases", ["same"], ["C13"], 100, seed_offset=37),
             chess_model("model-same", ["SameAsSelf", "SameVsNoEp"], [], MCQ, MCT),
-            board_job("same", ["same"], ["C13"], {"histories": 200, "subtrees": 130}, {"histories": 20000, "subtrees": 400, "deep": 10}, sample_kinds=["same"]),
+            board_job("same", ["same"], ["C13"], {"histories": 200, "subtrees": 160}, {"histories": 20000, "subtrees": 400, "deep": 10}, sample_kinds=["same"]),
         ],
     },
     "C14": {
@@ -183,7 +183,7 @@ PROPS = {
         "assumptions": BOARD_ASSUME,
         "jobs": [
             chess_model("model-null", ["NullEnabledOK", "DerivedOK", "HashPure"], ["NullOK"], MCQ, MCT),
-            board_job("null", ["rebuild"], ["C14", "C03", "C10"], {"histories": 900, "subtrees": 220, "deep": 2}, {"histories": 250000, "subtrees": 400, "deep": 40}, sample_kinds=["null", "rebuild"]),
+            board_job("null", ["rebuild"], ["C14", "C03", "C10"], {"histories": 900, "subtrees": 260, "deep": 2}, {"histories": 250000, "subtrees": 400, "deep": 40}, sample_kinds=["null", "rebuild"]),
         ],
         "report": ["C14"],
     },
@@ -194,7 +194,7 @@ PROPS = {
             castle_gen("castling-cases", ["tryplay"], ["C15"], 120, seed_offset=61),
             ep_gen("ep-cases", ["tryplay"], ["C15"], 120, seed_offset=59),
             chess_model("model-tryplay", ["TryPlayOK", "IsLegalOK"], ["SuccOK"], dict(MCQ, sweep=1), dict(MCT, sweep=1)),
-            board_job("tryplay", ["tryplay"], ["C15"], {"histories": 400, "subtrees": 130}, {"histories": 30000, "subtrees": 400, "deep": 20}, sample_kinds=["tryplay", "play"]),
+            board_job("tryplay", ["tryplay"], ["C15"], {"histories": 400, "subtrees": 160}, {"histories": 30000, "subtrees": 400, "deep": 20}, sample_kinds=["tryplay", "play"]),
         ],
     },
     "C16": {
@@ -202,7 +202,7 @@ PROPS = {
         "assumptions": BOARD_ASSUME,
         "jobs": [
             chess_model("model-masks", ["BatchesOK", "MaskLaw"], [], MCQ, dict(MCT, max_roots=40)),
-            board_job("masks", ["gen", "genfor", "abort"], ["C16"], {"histories": 250, "subtrees": 130}, {"histories": 15000, "subtrees": 400, "deep": 10}, sample_kinds=["genfor", "abort"]),
+            board_job("masks", ["gen", "genfor", "abort"], ["C16"], {"histories": 250, "subtrees": 160}, {"histories": 15000, "subtrees": 400, "deep": 10}, sample_kinds=["genfor", "abort"]),
         ],
     },
     "C20": {
@@ -301,7 +301,7 @@ PROPS = {
             {"type": "model", "name": "decide", "spec": "MC_HashKeys", "trace_from": "extract", "exhaustive": True,
              "params": {"quick": {"workers": 1, "xmx": "4g", "bounds": "all 633 extracted non-king keys, all 200 028 unordered pairs, all 2 x 2016 king-square pairs"},
                         "thorough": {"workers": 1, "xmx": "4g", "bounds": "all 633 extracted non-king keys, all 200 028 unordered pairs, all 2 x 2016 king-square pairs"}}},
-            board_job("moves-change-hash", [], ["C11"], {"histories": 1200, "subtrees": 220, "deep": 3}, {"histories": 300000, "subtrees": 400, "deep": 60}, sample_kinds=["play", "null"]),
+            board_job("moves-change-hash", [], ["C11"], {"histories": 1200, "subtrees": 260, "deep": 3}, {"histories": 300000, "subtrees": 400, "deep": 60}, sample_kinds=["play", "null"]),
         ],
     },
 }
